@@ -129,11 +129,32 @@ def in_fragment(t, frag=FRAGMENT) -> bool:
     return all(in_fragment(c, frag) for c in M.children(t))
 
 
+MAX_DEGREE = 24
+
+
+def degree_bound(t) -> int:
+    tag = t[0]
+    if tag == "var":
+        return 1
+    if tag == "const":
+        return 0
+    ks = [degree_bound(c) for c in M.children(t)]
+    if tag in ("add", "minus"):
+        return max(ks + [0]) if tag == "add" else max(ks)
+    if tag == "neg":
+        return ks[0]
+    if tag == "npow":
+        return ks[0] * int(t[2])
+    return sum(ks)          # mul, div, recip: degrees of numerator and denominator add up
+
+
 def rat_of(t):
     """(num, den) or None when t is outside the rational fragment / too big."""
     try:
+        if degree_bound(t) > MAX_DEGREE:
+            return None
         return _rat(t)
-    except TooBig:
+    except (TooBig, ValueError):
         return None
 
 
@@ -213,7 +234,7 @@ def rat_equal(a, b, tol=Fraction(1, 10 ** 11)):
 
 def exact_partial_value(t, env, v):
     """Exact value (Fraction) of d t/d v at env for terms of the polynomial fragment; None otherwise."""
-    if not in_fragment(t, POLY_FRAGMENT):
+    if not in_fragment(t, POLY_FRAGMENT) or degree_bound(t) > MAX_DEGREE:
         return None
     try:
         num, den = _rat(t)
